@@ -43,11 +43,15 @@ def hamiltonian(p):
 KINDS = ['plain', 'plain', 'concat', 'periodic', 'slice', 'extend', 'remap', 'long']
 
 
-def build(r, kind, thorough, spec=None):
+def build(r, kind, thorough, spec=None, idx=0):
     """returns (q, info): q the pulse under test, info: how its dt/t/tau relate to the source pulses.
     spec (replay) fixes the random choices."""
     spec = dict(spec or {})
     st = spec.setdefault('state', dict(t_first=bool(r.integers(0, 2)), diag_first=bool(r.integers(0, 2))))
+    j = idx // len(KINDS)            # occurrence number of this kind: cycle through the cache states deterministically
+    if 'fixed' not in spec:
+        spec['fixed'] = True
+        st['t_first'] = (True, True, False, True)[j % 4] if kind == 'concat' else bool(j % 2) if kind in ('extend', 'remap', 'periodic', 'slice') else st['t_first']
 
     def prep(p):
         if st['t_first']:
@@ -71,23 +75,42 @@ def build(r, kind, thorough, spec=None):
         info.update(src=[q.dt.copy()], newdt='d0', cached_src=None)
     elif kind == 'long':
         G = spec.setdefault('G', int(r.integers(8, 41)))
-        q = mk('p', d=2, G=G, dtc='generic', basis_kind='pauli')
+        if 'p' in spec:
+            q = mk('p')
+        else:       # adversarial selection: prefer durations whose pairwise sum exceeds the sequential cumulative sum
+            for _ in range(8):
+                q, tags = gen.rand_pulse(r, d=2, G=G, dtc='generic', basis_kind='pauli')
+                if float(np.sum(q.dt)) > float(np.cumsum(q.dt)[-1]):
+                    break
+            spec['p'] = pack_pulse(q)
+            spec.setdefault('tags', tags)
         info.update(src=[q.dt.copy()], newdt='d0', cached_src=None)
     elif kind == 'concat':
         d = spec.setdefault('d', int(r.choice([2, 3])))
-        p1 = prep(mk('p', d=d, G=int(r.integers(1, 4)), basis_kind='ggm'))
-        if 'p2' in spec:
-            p2 = unpack_pulse(spec['p2'])
+        npul = spec.setdefault('npulses', (3, 4, 2, 3)[j % 4])
+        with_ff = spec.setdefault('with_ff', bool(r.integers(0, 2)))
+        p1 = mk('p', d=d, G=int(r.integers(1, 4)), basis_kind='ggm')
+        pulses = [p1]
+        for k in range(1, npul):
+            key = 'p%d' % (k + 1)
+            if key in spec:
+                pk = unpack_pulse(spec[key])
+            else:
+                Gk = int(r.integers(1, 3))
+                pk = ff.PulseSequence(list(zip(p1.c_opers, r.standard_normal((len(p1.c_opers), Gk)), p1.c_oper_identifiers)),
+                                      list(zip(p1.n_opers, r.standard_normal((len(p1.n_opers), Gk)), p1.n_oper_identifiers)),
+                                      r.uniform(0.2, 1.5, Gk), basis=p1.basis)
+                spec[key] = pack_pulse(pk)
+            pulses.append(pk)
+        pulses = [prep(x) for x in pulses]
+        if with_ff:
+            om = np.array(spec.setdefault('omega', [0.0, 0.7, 2.3]))
+            q = ff.concatenate(pulses, calc_filter_function=True, omega=om)
         else:
-            G2 = int(r.integers(1, 3))
-            p2 = ff.PulseSequence(list(zip(p1.c_opers, r.standard_normal((len(p1.c_opers), G2)), p1.c_oper_identifiers)),
-                                  list(zip(p1.n_opers, r.standard_normal((len(p1.n_opers), G2)), p1.n_oper_identifiers)),
-                                  r.uniform(0.2, 1.5, G2), basis=p1.basis)
-            spec['p2'] = pack_pulse(p2)
-        p2 = prep(p2)
-        q = ff.concatenate([p1, p2], calc_filter_function=False)
-        info.update(src=[p1.dt.copy(), p2.dt.copy()], newdt='concat_dt [d0; d1]',
-                    assigned='concat_tau_assigned O [d0; d1] [%s; %s]' % (cached_lit(p1), cached_lit(p2)))
+            q = ff.concatenate(pulses, calc_filter_function=False)
+        names = '; '.join('d%d' % k for k in range(npul))
+        info.update(src=[x.dt.copy() for x in pulses], newdt='concat_dt [%s]' % names,
+                    assigned='concat_tau_assigned O [%s] [%s]' % (names, '; '.join(cached_lit(x) for x in pulses)))
     elif kind == 'periodic':
         p1 = prep(mk('p', d=int(r.choice([2, 3])), G=int(r.integers(1, 3))))
         rep = spec.setdefault('repeats', int(r.choice([1, 2, 3])))
@@ -312,8 +335,8 @@ def observe(r, q, with_queries=True):
     return dict(ev=ev, V=V, Q=Q, total=total, t=t, tau0=tau0, tau1=tau1, tau0_branch_none=tau0_none, tqs=tqs, U=np.array(U))
 
 
-def one_case(r, kind, thorough, spec=None):
-    q, info = build(r, kind, thorough, spec)
+def one_case(r, kind, thorough, spec=None, idx=0):
+    q, info = build(r, kind, thorough, spec, idx)
     try:
         obs = observe(r, q, with_queries=True)
         bad = predicates(q, obs['tau0'], obs['tqs'])
@@ -329,7 +352,7 @@ def run(ctx):
     cases, classes, failures, samples = [], {}, [], []
     for i in range(n):
         kind = KINDS[i % len(KINDS)]
-        q, info, obs, bad = one_case(r, kind, ctx.thorough)
+        q, info, obs, bad = one_case(r, kind, ctx.thorough, idx=i)
         inp = dict(kind=kind, spec=info['spec'], tags=info['tags'])
         for o, sig, det in bad:
             failures.append(dict(kind='prop', observable=o, signature=sig, detail=det, input=inp))
@@ -387,7 +410,7 @@ def search(ctx, broken):
     out = []
     for i in range(400):
         kind = KINDS[i % len(KINDS)]
-        q, info, obs, bad = one_case(r, kind, True)
+        q, info, obs, bad = one_case(r, kind, True, idx=i)
         bad = [b for b in bad if b[1] != 'c02-tau-exceeds-t-last'] or bad
         if bad:
             o, sig, det = bad[0]
